@@ -52,6 +52,7 @@ pub fn replay(id: &str, doc: &Value) -> i32 {
     match id {
         "C13" => c13::replay(case),
         "C14" => c14::replay(case),
+        "C15" if !case["c15"].is_null() => c15::replay(case),
         _ if !case["e2e"].is_null() => crate::e2e::replay(case),
         "C06" => c06::replay(case),
         "C07" => c07::replay(case),
